@@ -9,7 +9,7 @@ def main(tier, seed, replay=None):
     if replay:
         return cc.replay_file(replay)
     q = tier == 'quick'
-    e1 = [cl.Config(n=2, crash=1, restart=1, user=1, rounds=8),
+    e1 = [cl.Config(n=2, crash=1, restart=1, user=1, conflict=1, rounds=8),
           cl.Config(n=2, crash=1, restart=1, user=1, rounds=10, fail='SHUTDOWN'),
           cl.Config(n=2, slow=[(2, 1)], user=1, rounds=7, fail='RESYNC', sync=('LIST',)),
           cl.Config(n=3, user=1, rounds=7, hold=True)]
